@@ -29,7 +29,8 @@ def main():
     try:
         if a.replay:
             data = json.load(open(a.replay))
-            return mod.replay(core.Ctx(pid, a.tier, a.seed), data)
+            data["_path"] = a.replay
+            return core.replay(pid, mod, data)
         return core.check(pid, a.tier, a.seed, mod, getattr(mod, "LEVEL", ""))
     except core.Infra as exc:
         print(f"INFRASTRUCTURE ERROR: {exc}", file=sys.stderr)
